@@ -58,37 +58,30 @@ Proof. exact pass_okb_sound. Qed.
 Print Assumptions C04_pass_okb_sound.
 
 (** Non-vacuity: states reached by [Engine.run]. *)
-Example C04_ex_pass_hyps : exists s, ex_state = Ok s /\ pass_ok s /\ status s = 0.
-Proof. eexists. split; [vm_compute; reflexivity|]. split; [apply pass_okb_sound; vm_compute; reflexivity|reflexivity]. Qed.
+Example C04_ex_pass_hyps : ex_state = Ok ex_pre /\ pass_ok ex_pre /\ status ex_pre = 0.
+Proof. split; [vm_compute; reflexivity|]. split; [apply pass_okb_sound; vm_compute; reflexivity|vm_compute; reflexivity]. Qed.
 
 Example C04_ex_block_hyps :
-  exists s, ex_mid = Ok (s, [2; 3]%nat) /\ block_ok s [2; 3]%nat 1 /\ graph_ok s /\ quiet [] [2; 3]%nat.
+  ex_mid = Ok (ex_mid_s, [2; 3]%nat) /\ block_ok ex_mid_s [2; 3]%nat 1 /\ graph_ok ex_mid_s /\ quiet [] [2; 3]%nat.
 Proof.
-  eexists. split; [vm_compute; reflexivity|].
+  split; [vm_compute; reflexivity|].
   split; [apply block_okb_sound; vm_compute; reflexivity|].
   split; [apply graph_okb_sound; vm_compute; reflexivity|]. intros n w _. reflexivity.
 Qed.
 
 (** the two orders of that block really differ (the logs are not equal), yet are ≈ *)
 Example C04_ex_block_orders_differ :
-  exists s s1 s2 a1 a2, ex_mid = Ok (s, [2; 3]%nat) /\
-    run_block 0 [] s [2; 3]%nat = Ok (s1, None, a1) /\ run_block 0 [] s [3; 2]%nat = Ok (s2, None, a2) /\
-    log s1 <> log s2.
-Proof.
-  do 5 eexists. split; [vm_compute; reflexivity|]. split; [vm_compute; reflexivity|].
-  split; [vm_compute; reflexivity|]. vm_compute. discriminate.
-Qed.
+  is_ok (run_block 0 [] ex_mid_s [2; 3]%nat) = true /\ is_ok (run_block 0 [] ex_mid_s [3; 2]%nat) = true /\
+  bool_decide (log (blk_state (run_block 0 [] ex_mid_s [2; 3]%nat)) = log (blk_state (run_block 0 [] ex_mid_s [3; 2]%nat))) = false.
+Proof. split; [vm_compute; reflexivity|]. split; vm_compute; reflexivity. Qed.
 
 Theorem C04_sets_okb_sound : forall p s B, sets_okb p s B = true -> sets_ok p s B.
 Proof. exact sets_okb_sound. Qed.
 
 Example C04_ex_sets_hyps :
-  exists s, ex_mid = Ok (s, [2; 3]%nat) /\ sets_ok ex_plan s [2; 3]%nat /\
-            targets (nodeActs ex_plan s 2%nat) = [0%nat] /\ targets (nodeActs ex_plan s 3%nat) = [1%nat].
-Proof.
-  eexists. split; [vm_compute; reflexivity|]. split; [apply sets_okb_sound; vm_compute; reflexivity|].
-  split; vm_compute; reflexivity.
-Qed.
+  sets_ok ex_plan ex_mid_s [2; 3]%nat /\
+  targets (nodeActs ex_plan ex_mid_s 2%nat) = [0%nat] /\ targets (nodeActs ex_plan ex_mid_s 3%nat) = [1%nat].
+Proof. split; [apply sets_okb_sound; vm_compute; reflexivity|]. split; vm_compute; reflexivity. Qed.
 
 (** * Footprints and lock sets (the race-freedom logic) *)
 
@@ -160,9 +153,8 @@ Theorem C04_lockset_refuted_candidate_pending : forall s v, isVarKind (nkind (nd
   exists a b, a ∈ fp_set v /\ b ∈ footprint s v /\ conflict a b /\ ~ covered a b.
 Proof. exact lockset_refuted_pending. Qed.
 
-Example C04_ex_lockset_candidate_reachable :
-  exists s, ex_mid = Ok (s, [2; 3]%nat) /\ pushlist s 2%nat <> [].
-Proof. eexists. split; [vm_compute; reflexivity|]. vm_compute. discriminate. Qed.
+Example C04_ex_lockset_candidate_reachable : pushlist ex_mid_s 2%nat = [5%nat].
+Proof. vm_compute; reflexivity. Qed.
 
 (** * The bind case *)
 (* C04_full (NOT proved, and false as stated with ≈): "for every state reached by a history and
@@ -202,21 +194,22 @@ Print Assumptions C04_model_is_queue_order.
     [4; 2] (two lhs-change nodes, the first tearing the second down) ends in the library's index
     out of range [-1], the other order is fine *)
 Example C04_old_order_refuted :
-  exists s t, w_state = Ok s /\ fair queue_order /\ fair sw_sched /\
-    parStabilizeS_old queue_order [] s = Crash IndexOutOfRange /\
-    parStabilizeS_old sw_sched [] s = Ok (t, None).
+  w_state = Ok w_pre /\ fair queue_order /\ fair sw_sched /\
+  parStabilizeS_old queue_order [] w_pre = Crash IndexOutOfRange /\
+  parStabilizeS_old sw_sched [] w_pre = Ok (pass_state (parStabilizeS_old sw_sched [] w_pre), None).
 Proof.
-  do 2 eexists. split; [vm_compute; reflexivity|]. split; [exact queue_order_fair|].
+  split; [vm_compute; reflexivity|]. split; [exact queue_order_fair|].
   split; [exact sw_sched_fair|]. split; vm_compute; reflexivity.
 Qed.
 
 (** after the fix both orders succeed with the same observer values; the node ids differ *)
 Example C04_bind_ids_depend_on_schedule :
-  exists s t1 t2, w_state = Ok s /\ fair queue_order /\ fair rev_sched /\
-    parStabilizeS queue_order [] s = Ok (t1, None) /\ parStabilizeS rev_sched [] s = Ok (t2, None) /\
-    obsValues t1 = obsValues t2 /\ reg t1 <> reg t2.
+  let t1 := pass_state (parStabilizeS queue_order [] w_pre) in
+  let t2 := pass_state (parStabilizeS rev_sched [] w_pre) in
+  fair queue_order /\ fair rev_sched /\
+  parStabilizeS queue_order [] w_pre = Ok (t1, None) /\ parStabilizeS rev_sched [] w_pre = Ok (t2, None) /\
+  obsValues t1 = obsValues t2 /\ bool_decide (reg t1 = reg t2) = false.
 Proof.
-  do 3 eexists. split; [vm_compute; reflexivity|]. split; [exact queue_order_fair|].
-  split; [exact rev_sched_fair|]. split; [vm_compute; reflexivity|]. split; [vm_compute; reflexivity|].
-  split; vm_compute; [reflexivity|discriminate].
+  cbv zeta. split; [exact queue_order_fair|]. split; [exact rev_sched_fair|].
+  split; [vm_compute; reflexivity|]. split; [vm_compute; reflexivity|]. split; vm_compute; reflexivity.
 Qed.
